@@ -34,6 +34,7 @@ Proof.
   pose proof (frames_nonneg k d Hd) as Hf. set (f := frames k d) in *.
   rewrite !run_chain_restored. cbn [cur].
   destruct (k =? 0); [reflexivity|].
+  destruct (k =? 29); [reflexivity|].
   destruct (mode k =? 0).
   { rewrite code_run_nest by exact HL. rewrite Z2Nat.id by exact Hf. reflexivity. }
   destruct (mode k =? 1).
@@ -50,7 +51,7 @@ Qed.
 Lemma stack_step_limit : forall L op, 0 <= L -> op_ok op -> 0 <= fst (stack_step L op).
 Proof.
   intros L [k d] HL Hd. unfold op_ok in Hd. cbn [snd] in Hd. unfold stack_step.
-  destruct (k =? 0); [exact Hd|]. destruct (mode k =? 0); [exact HL|].
+  destruct (k =? 0); [exact Hd|]. destruct (k =? 29); [exact HL|]. destruct (mode k =? 0); [exact HL|].
   destruct (mode k =? 1); exact HL.
 Qed.
 
